@@ -66,6 +66,10 @@
   * `C01_toplevel_typedef` (`Theorems/TypedefForm.lean`, `TopLevel.lean`): `typedef T ptr-ops x ;` through the
     whole parse loop and the recursive core, in any block: exactly ONE `on_typedef` with the name,
     the type the declarator denotes and (in a class body) the access level in force.
+  * `C01_toplevel_forward_decl` (`Theorems/FwdDecl.lean`, `TopLevel.lean`): `class N ;` / `struct a::b::N ;` /
+    `union N ;` through the whole parse loop and the recursive core, in any block: exactly ONE
+    `on_forward_decl` with the written class key and qualified name, the access level in force and
+    the doc text found before it.
 -/
 import CxxModel.Tables
 import CxxModel.Props.C04
@@ -387,6 +391,30 @@ theorem C01_toplevel_typedef (env : Env) (hc : env.cfg = genLexCfg) (F D : Nat) 
       w7.delivered = w.delivered + 1 ∧ w7.anon = w.anon ∧ w7.muted = false ∧ w7.nextId = w.nextId :=
   toplevel_typedef env (by rw [hc]; exact gen_rules_progress) F D w kw first pairs ops x semi d1 bk b1 b0 bmid bx b' blk rest hstack hxne hmu hfa
     htkw hkw htok hty htv hall hy0 hops hopsv hy ha htx hx hxv hsemi hs hF
+
+end
+
+section
+open P
+
+theorem C01_toplevel_forward_decl (env : Env) (hc : env.cfg = genLexCfg) (F D : Nat) (w : World)
+    (kw first : Tok) (pairs : List (Tok × Tok)) (semi : Tok) (bk b1 bmid b' : Buf)
+    (blk : Block) (rest : List Block) (hstack : w.stack = blk :: rest)
+    (hmu : w.muted = false) (hfa : ¬ env.faultAt = some w.delivered)
+    (htkw : tokenEofOk env.cfg w.buf = .ok (some kw, bk)) (hkw : isClassKey kw.value = true) (hkwt : kw.type = kw.value)
+    (htf : tokenEofOk env.cfg bk = .ok (some first, b1)) (hf : first.type = "NAME") (hfv : plainVal first.value = true)
+    (hall : ∀ p ∈ pairs, p.1.type = "DBL_COLON" ∧ p.2.type = "NAME" ∧ plainVal p.2.value = true)
+    (hy : Yields env.cfg b1 (pairs.flatMap (fun p => [p.1, p.2])) bmid)
+    (htok : tokenEofOk env.cfg bmid = .ok (some semi, b')) (hs : semi.type = ";") (hF : pairs.length + 2 ≤ F) :
+    ∃ (d : Option String) (bD : Buf) (w7 : World) (ct : CTok) (ev : Event),
+      getDoxygen env.cfg env.mcRe w.buf = .ok (d, bD) ∧
+      interp env (mainBody F (core F (D + 1 + 1)) none) w = (w7, .ok (.inl none)) ∧
+      w7.buf = b' ∧ w7.stack = { blk with loc := .tok ct.sidx } :: rest ∧
+      w7.events = w.events ++ [ev] ∧ ev.kind = .item (.forwardDecl (plainFwd kw.value first pairs blk d)) ∧
+      ev.stateId = blk.id ∧ ev.parentId = rest.head?.map (·.id) ∧
+      w7.delivered = w.delivered + 1 ∧ w7.anon = w.anon ∧ w7.muted = false ∧ w7.nextId = w.nextId :=
+  toplevel_forward_decl env (by rw [hc]; exact gen_rules_progress) F D w kw first pairs semi bk b1 bmid b' blk rest hstack hmu hfa
+    htkw hkw hkwt htf hf hfv hall hy htok hs hF
 
 end
 
